@@ -118,6 +118,10 @@ def run(env: Any, case: dict[str, Any]) -> Any:
             single = all(len(item[1]) == 1 for item in l[3])
             if single:
                 env.prove(l[-1] == "tight", "list-spacing:tight-single-block-lists", {"out": outs["tight"]})
+            else:
+                # "tight removes those blank lines from every list whose items each hold a single block" - and only those:
+                # a list with a multi-block item is not made tight
+                env.prove(l[-1] == "loose", "list-spacing:tight-only-single-block-lists", {"out": outs["tight"]})
         return outs
     if case["kind"] == "cleanups":
         off = reformat_text(doc, width=W, semantic=case["sem"], cleanups=False)
